@@ -339,7 +339,7 @@ def rule_days(ctx, facts):
             v = ('e', v[1], {variant: v[2][variant]})
             fields['f'] = [x[1] for x in v[2][variant]]
             return ('r', I_.alloc(st, v))
-        N.run(RULE_TS, overrides={'start': mk_rule}, variants=('fixed',))
+        N.run(RULE_TS, overrides={'start@1': mk_rule}, variants=('fixed',))
         nok = 0
         for args, st0, outs in N.results.get(RULE_TS, []):
             time_v, ts_v = args[1][1], args[2][1]
@@ -457,7 +457,7 @@ def leap_shift(ctx, facts):
 
     def doy(I_, st, ty):
         return I_.top(st, ty, 'n', lo=1, hi=365)
-    N.run(YDD, overrides={'ignore_leap': ign, 'doy': doy}, variants=('fixed',))
+    N.run(YDD, overrides={'ignore_leap@3': ign, 'doy@2': doy}, variants=('fixed',))
     groups = {}
     for args, st0, outs in N.results.get(YDD, []):
         year, n = args[0][1], args[1][1]
@@ -649,7 +649,7 @@ def weekday_lists(ctx, facts):
                 cur.clear()
                 cur.update({'len': ln, 'r': r})
                 label = f'{WIM}[{ln} days, 1st = {r} mod 7, weekday {w}]'
-                N.run(WIM, label=label, overrides={'weekday': lambda I_, st, ty, w=w: const_int(w, 'u8')}, variants=('fixed',))
+                N.run(WIM, label=label, overrides={'weekday@3': lambda I_, st, ty, w=w: const_int(w, 'u8')}, variants=('fixed',))
                 want = [d for d in range(1, ln + 1) if (r + d) % 7 == w]
                 total += 1
                 msg = cur.get('bad')
